@@ -232,6 +232,63 @@ def plant_dups(r, doc, size):
     return doc
 
 
+def plant_defects(r, doc):
+    """token-level defects whose recovery runs handler code (accepting error callback): CIF_PARTIAL_PACKET (the last packet of a loop
+    truncated), CIF_EMPTY_LOOP (a header without values), CIF_NULL_LOOP (`loop_` without names), CIF_MISSING_VALUE (a data name
+    followed by no value), CIF_UNEXPECTED_VALUE (a value in element position).  What the text really contains is read back from the
+    rendered tokens (doc_of_tokens), so an unlucky neighbourhood only changes which defect the case exercises."""
+    def copy(els):
+        return [("f", e[1], copy(e[2])) if e[0] == "f" else e for e in els]
+    doc = [("b", b[1], copy(b[2])) for b in doc]
+    if not doc:
+        return doc
+
+    def bodies(els, out):
+        out.append(els)
+        for e in els:
+            if e[0] == "f":
+                bodies(e[2], out)
+        return out
+
+    def nonvalue_follows(els, i):
+        return i + 1 >= len(els) or els[i + 1][0] != "x"
+
+    for _ in range(r.randint(1, 2)):
+        els = r.choice(bodies(r.choice(doc)[2], []))
+        k = r.random()
+        loops = [i for i, e in enumerate(els) if e[0] == "l" and e[1] and e[2]]
+        if k < 0.4 and loops:
+            i = r.choice(loops)
+            _, ns, pk = els[i]
+            if len(ns) >= 2 and nonvalue_follows(els, i):
+                cut = r.randint(1, len(ns) - 1)
+                els[i] = ("l", ns, [list(p) for p in pk[:-1]] + [list(pk[-1][:cut])])      # partial packet
+            elif len(ns) == 1 and nonvalue_follows(els, i):
+                # one column: add a second name so that the last packet can be short
+                ns2 = ns + ["_pp%d" % r.randint(0, 9)]
+                els[i] = ("l", ns2, [list(p) + [rand_value(r, 1)] for p in pk[:-1]] + [list(pk[-1])])
+        elif k < 0.55 and loops:
+            i = r.choice(loops)
+            if i + 1 >= len(els) or els[i + 1][0] in ("l", "f"):
+                els[i] = ("l", els[i][1], [])                                                # empty loop
+            else:
+                els.append(("l", ["_el%d" % r.randint(0, 9)], []))
+        elif k < 0.7:
+            els.append(("l", [], []))                                                        # null loop at the end
+            if r.random() < 0.5:
+                els.append(("x", rand_value(r, 1)))
+        elif k < 0.85:
+            i = r.randint(0, len(els))
+            if i >= len(els) or els[i][0] != "x":
+                els.insert(i, ("i", "_mv%d" % r.randint(0, 9), None))                        # missing value
+        else:
+            ok = [i for i in range(len(els) + 1) if i == 0 or els[i - 1][0] == "f" or (els[i - 1][0] == "i" and els[i - 1][2] is not None)
+                  or (els[i - 1][0] == "l" and not els[i - 1][1])]
+            if ok:
+                els.insert(r.choice(ok), ("x", rand_value(r, 1)))                            # unexpected value
+    return doc
+
+
 def header_ok(doc):
     """no loop header can lose all its names: its first name is new to everything the (possibly reopened) container could
     hold, whatever was skipped before"""
@@ -241,6 +298,8 @@ def header_ok(doc):
         for e in es:
             if e[0] == "i":
                 seen.add(norm(e[1]))
+            elif e[0] == "x" or (e[0] == "l" and not e[1]):
+                pass
             elif e[0] == "l":
                 if norm(e[1][0]) in seen:
                     return False
@@ -335,7 +394,10 @@ class Renderer:
         for e in els:
             if e[0] == "i":
                 self.emit("nm", hx(e[1]), e[1])
-                self.value(e[2])
+                if e[2] is not None:                     # None: planted CIF_MISSING_VALUE
+                    self.value(e[2])
+            elif e[0] == "x":                            # planted CIF_UNEXPECTED_VALUE
+                self.value(e[1])
             elif e[0] == "l":
                 self.emit("lk", "-", self.r.choice(["loop_", "loop_", "LOOP_", "Loop_"]) if self.layout != "min" else "loop_")
                 for n in e[1]:
@@ -377,6 +439,8 @@ def handler_count(doc):
         for e in es:
             if e[0] == "i":
                 n += 1
+            elif e[0] == "x":
+                pass
             elif e[0] == "l":
                 n += 2 + len(e[2]) * (2 + len(e[1]))
             else:
@@ -394,13 +458,17 @@ def handler_labels(doc):
         for e in es:
             if e[0] == "i":
                 out.append(("it",))
+            elif e[0] == "x":
+                pass
+            elif e[0] == "l" and not e[1]:
+                out.append(("nl",))                     # null loop: loop_end only
             elif e[0] == "l":
                 L = nloop[0]
                 nloop[0] += 1
                 out.append(("ls", L))
                 for i, p in enumerate(e[2]):
                     out.append(("ps", L, i))
-                    for j in range(len(e[1])):
+                    for j in range(len(p)):
                         out.append(("li", L, i, j))
                     out.append(("pe", L, i))
                 out.append(("le", L))
@@ -476,6 +544,9 @@ def split_req(req):
     return t[2], toks, prog
 
 
+VALUE_TYPES = ("val", "qval", "tval", "ol", "ot")
+
+
 def doc_of_tokens(toks):
     """independent little parser of the (well-formed) token list -> abstract document with values as dump text"""
     pos = [0]
@@ -511,17 +582,24 @@ def doc_of_tokens(toks):
             if ty == "nm":
                 name = toks[pos[0]][2]
                 pos[0] += 1
-                els.append(("i", name, value()))
+                # a data name followed by no value: CIF_MISSING_VALUE (value None)
+                els.append(("i", name, value() if peek() in VALUE_TYPES else None))
+            elif ty in VALUE_TYPES:
+                els.append(("x", value()))               # CIF_UNEXPECTED_VALUE
             elif ty == "lk":
                 pos[0] += 1
                 names = []
                 while peek() == "nm":
                     names.append(toks[pos[0]][2])
                     pos[0] += 1
+                if not names:
+                    els.append(("l", [], []))            # CIF_NULL_LOOP; values that follow are unexpected values
+                    continue
                 vals = []
-                while peek() in ("val", "qval", "tval", "ol", "ot"):
+                while peek() in VALUE_TYPES:
                     vals.append(value())
                 n = len(names)
+                # no values: CIF_EMPTY_LOOP; a short last packet: CIF_PARTIAL_PACKET
                 els.append(("l", names, [vals[i:i + n] for i in range(0, len(vals), n)]))
             elif ty == "fh" and not in_frame:
                 code = toks[pos[0]][2]
@@ -803,7 +881,9 @@ class Sim:
 
     def prefill(self, e, cs):
         if e[0] == "i":
-            cs["items"].setdefault(e[1], (e[2], NOT))
+            cs["items"].setdefault(e[1], (e[2] if e[2] is not None else "U", NOT))
+        elif e[0] == "x":
+            pass
         elif e[0] == "l":
             cs["loops"].append({"names": e[1], "pk": [(p, NOT) for p in e[2]], "open": False, "id": id(e)})
         else:
@@ -811,17 +891,31 @@ class Sim:
 
     def element(self, e, cs, byp, handle):
         """`handle`: the container these elements belong to has a non-NULL handle (duplicates are detected against it)"""
+        # Recovery paths (accepting error callback).  The ERROR callback is made whatever is being skipped; only handler and
+        # syntax callbacks are suppressed in a bypassed region.
+        if e[0] == "x":
+            # CIF_UNEXPECTED_VALUE: a value in element position is parsed as a nameless item and dropped
+            self.syntax(("er", "134"))
+            return "go"
         if e[0] == "i":
+            missing = e[2] is None                      # CIF_MISSING_VALUE: a synthetic unknown value, the token stays
+            val = "U" if missing else e[2]
             if byp:
+                if missing:
+                    self.syntax(("er", "133"))
                 return "go"
             self.syntax(("dn", e[1]))
             if handle and normh(e[1]) in self.present(cs):
                 # CIF_DUP_ITEMNAME: error callback, the value is parsed, NO item handler, nothing stored
                 self.syntax(("er", "41"))
+                if missing:
+                    self.syntax(("er", "133"))
                 return "go"
-            cs["items"][e[1]] = (e[2], MAY)            # in progress
-            r = self.handler(("it", (e[1], e[2])))
-            cs["items"][e[1]] = (e[2], MUST if r == CONT else NOT)     # STRICT: SKIP_* = not stored
+            if missing:
+                self.syntax(("er", "133"))
+            cs["items"][e[1]] = (val, MAY)            # in progress
+            r = self.handler(("it", (e[1], val)))
+            cs["items"][e[1]] = (val, MUST if r == CONT else NOT)     # STRICT: SKIP_* = not stored
             return "sib" if r == SKIP_SIB else "go"
         if e[0] == "f":
             fh = handle and not byp                      # the frame is created (or reopened) in the container
@@ -841,6 +935,14 @@ class Sim:
         ls = [l for l in cs["loops"] if l["id"] == id(e)][0]
         if not byp:
             self.syntax(("kw", "-"))
+        if not e[1]:
+            # CIF_NULL_LOOP: `loop_` without a data name is ignored: no loop_start; the tail of parse_loop still runs: the skip
+            # depth is popped, or handle_loop_end is called - with a NULL loop, in both modes
+            self.syntax(("er", "37"))
+            if byp:
+                return "go"
+            r4 = self.handler(("le", None))
+            return "sib" if r4 == SKIP_SIB else "go"
         # the header: data-name callbacks only while nothing is skipped; duplicates are diagnosed in any case — against the
         # container whenever it has a handle, against the earlier names of the header always
         slots = []
@@ -856,7 +958,13 @@ class Sim:
         names = [n for n in slots if n is not None]
         ls["names"] = names
         ls["pk"] = [([v for v, m in zip(p, slots) if m is not None], cl) for p, cl in ls["pk"]]
+        nslots = len(slots)
         if byp:
+            # the body is parsed all the same: its defects are reported
+            if not e[2]:
+                self.syntax(("er", "36"))
+            elif len(e[2][-1]) < nslots:
+                self.syntax(("er", "53"))
             return "go"
         ls["open"] = True
         r = self.handler(("ls", tuple(names)))
@@ -869,9 +977,17 @@ class Sim:
         # SKIP_SIBLINGS of packet_start / packet_end (an item's siblings are the other items of its packet)
         no_le = pbyp
         for i, p in enumerate(e[2]):
+            # CIF_PARTIAL_PACKET: the body ends inside the last packet.  The values of the retained columns still missing are
+            # filled with unknown values, then the end of a packet as usual: nothing while the packet is being skipped, else
+            # packet_end (with the filled packet) and its answers
+            partial = len(p) < nslots
             if pbyp:
+                if partial:
+                    self.syntax(("er", "53"))
                 continue
             kept = [v for v, m in zip(p, slots) if m is not None]
+            if partial:
+                kept = kept + ["U"] * len([m for m in slots[len(p):] if m is not None])
             ls["pk"][i] = (kept, MAY)                   # in progress
             r1 = self.handler(("ps", "0"))
             ibyp = (r1 != CONT)
@@ -888,6 +1004,8 @@ class Sim:
                     ibyp = True
                     no_pe = True
                     cls = NOT
+            if partial:
+                self.syntax(("er", "53"))
             pe = ("pe", tuple(zip(names, kept)))
             if no_pe:
                 if self.peek() == pe:
@@ -900,6 +1018,9 @@ class Sim:
                     pbyp = True
                     no_le = True
             ls["pk"][i] = (kept, cls)
+        if not e[2]:
+            # CIF_EMPTY_LOOP: a header without values; the loop (if created) stays packet-less until its container is pruned
+            self.syntax(("er", "36"))
         # loop end: handle = names sorted by code unit in storing mode, NULL otherwise
         exp = ("le", tuple(sorted(names)) if self.storing else None)
         if no_le:
@@ -1006,6 +1127,27 @@ def first_reached(prog, n):
     return ks
 
 
+def ws_layout_ok(toks, got, stopped):
+    """C15_layout_callbacks restated on the implementation's observation: the whitespace callbacks, concatenated (hex), are the
+    concatenation over a PREFIX of the document's tokens in order (all tokens, the end of input included, unless the parse was
+    stopped) of either the token's whole layout (scanned outside a skipped region) or its comments only (inside one)."""
+    full = ["".join(t for _, t in segs if t != "-") for _, segs, _ in toks]
+    comm = ["".join(t for k, t in segs if k == "c" and t != "-") for _, segs, _ in toks]
+    pos = {0}
+    for k in range(len(toks)):
+        if stopped and len(got) in pos:
+            return True
+        nxt = set()
+        for q in pos:
+            for s in (full[k], comm[k]):
+                if got.startswith(s, q):
+                    nxt.add(q + len(s))
+        pos = nxt
+        if not pos:
+            return False
+    return len(got) in pos
+
+
 def oracle(req, impl):
     del QBAD[:]
     sp = split_impl(impl)
@@ -1044,6 +1186,11 @@ def oracle(req, impl):
             got = "".join(e[1] for e in evs if e[0] == "ws" and e[1] != "-")
             if got != wstext:
                 return "%s: whitespace callbacks deliver %s, document whitespace is %s" % (mode, got, wstext)
+        else:
+            got = "".join(e[1] for e in evs if e[0] == "ws" and e[1] != "-")
+            if not ws_layout_ok(toks, got, stopped):
+                return ("%s: whitespace callbacks deliver %s: not the layout of a prefix of the document's tokens in order, comments "
+                        "always, whitespace runs per token all or none (document whitespace is %s)" % (mode, got, wstext))
         if mode == "S":
             try:
                 cif = parse_dump(sp["cif"])
@@ -1053,7 +1200,7 @@ def oracle(req, impl):
             if why:
                 return "stored CIF: " + why
     # (with a duplicate diagnostic the two modes legitimately differ: without a CIF only a loop header's own repeats are seen)
-    if not any(e[0] == "er" for e in sp["S"][2] + sp["N"][2]) and \
+    if not any(e[0] == "er" and e[1] in ("41", "21", "11") for e in sp["S"][2] + sp["N"][2]) and \
             (strip_handles(sp["S"][2]) != strip_handles(sp["N"][2]) or sp["S"][0] != sp["N"][0]):
         return "syntax-only mode delivers a different callback sequence / result than storing mode"
     return None
@@ -1142,7 +1289,9 @@ def shrink(req):
         out = []
         for e in els:
             if e[0] == "i":
-                out.append(("i", un(e[1]), undump(e[2])))
+                out.append(("i", un(e[1]), undump(e[2]) if e[2] is not None else None))
+            elif e[0] == "x":
+                out.append(("x", undump(e[1])))
             elif e[0] == "l":
                 out.append(("l", [un(n) for n in e[1]], [[undump(v) for v in p] for p in e[2]]))
             else:
@@ -1170,6 +1319,43 @@ CORE = [("b", "b1", [("i", "_a", ("C", 0, "1.5", "unq")),
                      ("l", ["_c", "_d"], [[("C", 0, "u", "unq"), ("T", [("k", "sq", ("N",))])], [("C", 1, "t\nw", "text"), ("U",)]]),
                      ("i", "_e", ("C", 1, "q", "tsq"))]),
         ("b", "B2", [("i", "_a", ("U",))])]
+
+
+# token-level defects under handler programs: a truncated last packet (in a block, in a frame, with a dropped column), an empty
+# loop, a null loop followed by a stray value, a data name without value at the end of a frame and of the document
+DEFECTS = [("b", "d1", [("i", "_s0", U("a")),
+                        ("l", ["_a", "_b", "_c"], [[U("1"), U("2"), U("3")], [U("4")]]),
+                        ("i", "_s1", U("b")),
+                        ("f", "fr", [("l", ["_d", "_e"], [[U("5")]]), ("i", "_mv", None)]),
+                        ("l", ["_g"], []),
+                        ("l", [], []), ("x", U("9")),
+                        ("l", ["_h", "_s0", "_i"], [[U("p"), U("q"), U("r")], [U("s"), U("t")]])]),
+           ("b", "d2", [("x", ("L", [U("z")])), ("l", ["_k", "_l"], [[U("1"), U("2")], [U("3")]]), ("i", "_last", None)])]
+
+
+def inside_model(req):
+    """the document the TEXT of the request really is (a null loop followed by a data name is a loop header, …) keeps every loop
+    header at least one name — a header that loses all its names to the duplicate check is outside the model"""
+    try:
+        _, toks, _ = split_req(req)
+        doc = doc_of_tokens(toks)
+    except Exception:       # noqa
+        return False
+    return header_ok([("b", un(b[1]), _unhex_els(b[2])) for b in doc])
+
+
+def _unhex_els(els):
+    out = []
+    for e in els:
+        if e[0] == "i":
+            out.append(("i", un(e[1]), e[2]))
+        elif e[0] == "l":
+            out.append(("l", [un(n) for n in e[1]], e[2]))
+        elif e[0] == "f":
+            out.append(("f", un(e[1]), _unhex_els(e[2])))
+        else:
+            out.append(e)
+    return out
 
 
 def generate(seed, tier):
@@ -1243,3 +1429,31 @@ def generate(seed, tier):
             if r.random() < 0.4:
                 prog[r.randrange(n)] = r.choice([-1, -2])
             yield request(doc, r, "rand", prog)
+    # 5. token-level defects whose recovery runs handler code (accepting error callback): CIF_PARTIAL_PACKET, CIF_EMPTY_LOOP,
+    #    CIF_NULL_LOOP, CIF_MISSING_VALUE, CIF_UNEXPECTED_VALUE x handler programs (every single deviation on the fixed document,
+    #    skips / stops at the packet_end and loop_end of the recovery paths among them; random documents and programs beyond)
+    ddocs = [(DEFECTS, "min"), (DEFECTS, "rand")]
+    for i in range(4 if quick else 40):
+        ddocs.append((plant_defects(r, rand_doc(r, big if i % 2 == 0 else small)), "rand"))
+    for di, (doc, layout) in enumerate(ddocs):
+        n = handler_count(doc)
+        req = request(doc, r, layout, {})
+        if not inside_model(req):
+            continue
+        yield req
+        for k in range(n):
+            for resp in ((-1, -2, -3, 7) if di < 2 else (r.choice([-1, -2]), r.choice([-3, 7]))):
+                yield request(doc, r, layout, {k: resp})
+    for i in range(150 if quick else 3000):
+        doc = plant_defects(r, rand_doc(r, big if r.random() < 0.5 else small))
+        if r.random() < 0.2:
+            cand = plant_dups(r, doc, small)
+            if header_ok(cand):
+                doc = cand
+        n = max(1, handler_count(doc))
+        prog = {}
+        for _ in range(r.randint(0, 4)):
+            prog[r.randrange(n)] = r.choice([-1, -1, -2, -2, -3, 7])
+        req = request(doc, r, "rand", prog)
+        if inside_model(req):
+            yield req
